@@ -43,11 +43,13 @@ LEVEL_TEXT = ("Machine-checked: (1) for every import tree of strip/preserve decl
               "numbers/booleans equal); the same for the events of xsl:copy-of, key() tables, for-each/apply-templates "
               "contexts, xsl:sort keys, match/count/from/key patterns with predicates and several steps read as "
               "expressions, xsl:number level single/multiple and level any with or without from (including that the C++ "
-              "backwards walk computes the Recommendation's count). Tied to the working tree by a translator (7 call "
-              "sites + 15 statements, re-proved each run), by calling the real StylesheetRoot::shouldStripSourceNode on "
+              "backwards walk computes the Recommendation's count), key() with a node-set argument. Tied to the working tree by a "
+              "translator (7 shouldStripSourceNode call sites, 15 ordering statements, 36 string-value sites outside "
+              "DOMServices that must hand on the execution context and 46 calls of the strip-aware funnel inside it, "
+              "re-proved each run), by calling the real StylesheetRoot::shouldStripSourceNode on "
               "every text node and the real XPath/copy-of/key()/xsl:number through XalanTransformer on both source "
               "representations (XalanSourceTree, Xerces DOM; with and without DTD-declared element content), and by "
-              "differential transformations (with declarations on D vs without on D') over 29 stylesheet bodies.")
+              "differential transformations (with declarations on D vs without on D') over 31 stylesheet bodies.")
 LEVEL_NOTE = ("Trusted: Lean kernel; axioms propext/Classical.choice/Quot.sound only; the hand transcription of "
               "Stylesheet.cpp/StylesheetRoot.cpp/XPath.cpp NodeTester/DOMServices/ElemNumber.cpp/KeyTable and the evaluator "
               "model (validated by the correspondence streams, bounded by generator coverage); gen/c13_gen.py (renderers, "
@@ -86,12 +88,15 @@ THEOREMS = [
     "XalanModel.Props.C13.sort_keys_simulation",
     "XalanModel.Props.C13.copy_of_simulation",
     "XalanModel.Props.C13.key_simulation",
+    "XalanModel.Props.C13.key_argument_simulation",
     "XalanModel.Props.C13.number_single_multiple_simulation",
     "XalanModel.Props.C13.number_any_loop_eq_count",
     "XalanModel.Props.C13.number_any_count_simulation",
     "XalanModel.Props.C13.number_any_simulation",
     "XalanModel.Props.C13.observation_sites_accounted",
     "XalanModel.Props.C13.ordering_code_as_modelled",
+    "XalanModel.Props.C13.string_value_sites_strip_aware",
+    "XalanModel.Props.C13.string_value_funnel_passes_context",
 ]
 
 # ------------------------------------------------------------------------------------------------------
@@ -124,7 +129,7 @@ def make_lines(d, case, cid):
         return [("strip%s %s %s ; %s" % (sfx, cid, " ".join(st), " ".join(dt)), "strip")]
     hx = case.get("xmlspace", True)
     doc2 = G.strip_doc(sheet, doc, honour_xml_space=hx)
-    if kind in ("eval", "copy", "key", "number", "numbersm"):
+    if kind in ("eval", "copy", "key", "keyarg", "number", "numbersm"):
         if kind == "eval":
             body = G.eval_body(case["expr"])
             et = " ".join(G.expr_tokens(case["expr"]))
@@ -134,6 +139,9 @@ def make_lines(d, case, cid):
         elif kind == "key":
             body = G.key_body(case["match"], case["use"], case["lit"])
             et = "%s ; %s ; %s" % (G.pat_tokens(case["match"]), " ".join(G.expr_tokens(case["use"])), G.hex_units(case["lit"]))
+        elif kind == "keyarg":
+            body = G.keyarg_body(case["match"], case["use"], case["arg"])
+            et = "%s ; %s ; %s" % (G.pat_tokens(case["match"]), " ".join(G.expr_tokens(case["use"])), " ".join(G.expr_tokens(case["arg"])))
         elif kind == "numbersm":
             body = G.numbersm_body(case["count"], case["from"], case["level"])
             et = "%s ; %s ; %s" % (G.pat_tokens(case["count"]), G.pat_tokens(case["from"]), case["level"])
@@ -200,7 +208,7 @@ def judge(case, r):
             return ("violation", "strip.selection", "shouldStripSourceNode=%s, XSLT 3.4 selects %s" % (iv, o))
         return ("ok", None, None)
     (ia, ma), (ib, mb) = r["A"], r["B"]
-    if kind in ("eval", "copy", "key", "number", "numbersm"):
+    if kind in ("eval", "copy", "key", "keyarg", "number", "numbersm"):
         if ia != ib:
             sub = "[from]" if kind in ("number", "numbersm") and case["from"] else ""
             return ("violation", "%s.declared-vs-prestripped%s" % (kind, sub),
@@ -338,6 +346,8 @@ def describe(case):
         d["stylesheet_body"] = G.eval_body(case["expr"]) if case["kind"] == "eval" else G.copy_body(case["expr"])
     if case["kind"] == "key":
         d["stylesheet_body"] = G.key_body(case["match"], case["use"], case["lit"])
+    if case["kind"] == "keyarg":
+        d["stylesheet_body"] = G.keyarg_body(case["match"], case["use"], case["arg"])
     if case["kind"] == "number":
         d["stylesheet_body"] = G.number_body(case["count"], case["from"])
     if case["kind"] == "numbersm":
@@ -404,6 +414,14 @@ for _b, _ in G.BODIES:
     CORPUS.append({"kind": "xform", "body": _b, "sheet": S([dec(True, ("*",)), dec(False, ("q", "", "b"))]), "doc": CORPUS_DOC})
 R_, X_ = ("", "r"), ("", "x")
 CORPUS += [
+    # key() with a multi-node argument over elements holding stripped whitespace (FunctionKey's per-member lookup)
+    {"kind": "keyarg", "sheet": S([dec(True, ("*",))]), "doc": CORPUS_DOC, "match": ("any",), "use": ("self",),
+     "arg": ("step", ("root",), "descendant", ("any",))},
+    {"kind": "keyarg", "sheet": S([dec(True, ("*",)), dec(False, ("q", "", "b"))]), "doc": CORPUS_DOC, "match": ("any",),
+     "use": ("step", ("self",), "child", ("any",)), "arg": ("step", ("step", ("root",), "child", ("any",)), "child", ("node",))},
+    {"kind": "xform", "body": "id-fn", "dtd": "ids", "sheet": S([dec(True, ("*",))]),
+     "doc": D(E(A_, T(" "), E(B_, attrs=[("id", "xy")]), E(C_, E(B_, T("x")), T(" "), E(B_, T("y"))), E(C_, T("x y"), attrs=[("id", "x")]),
+              E(B_, T("y"), attrs=[("id", "y")])))},
     {"kind": "eval", "sheet": S([dec(True, ("*",))]), "doc": CORPUS_DOC,
      "expr": ("let", ("step", ("step", ("root",), "child", ("any",)), "child", ("node",)),
               ("let", ("stepP", ("var", 0), "following-sibling", ("node",), ("num", 1)),
@@ -503,6 +521,15 @@ def gen_cases(ctx):
         cases.append({"kind": "numbersm", "sheet": G.gen_sheet(r), "doc": G.gen_doc(r, r.range(2, 4), r.range(3, 5)),
                       "count": G.gen_pattern(r), "from": G.gen_pattern(r) if r.chance(1, 3) else None,
                       "level": "single" if i % 2 else "multiple"})
+    # key() with node-set / string arguments over elements with stripped content; use = string value / child elements /
+    # text children / a string built from the content
+    for i in range(n_key):
+        use = [("self",), ("step", ("self",), "child", ("any",)), ("step", ("self",), "child", ("text",)),
+               ("concat", ("string", ("self",)), ("string", ("count", ("step", ("self",), "child", ("node",))))),
+               ("normalize-space", ("string", ("self",)))][i % 5]
+        arg = G.gen_ns(r, r.range(1, 2), False) if i % 4 else G.gen_str(r, 1, False)
+        cases.append({"kind": "keyarg", "sheet": G.gen_sheet(r), "doc": G.gen_doc(r, r.range(2, 4), r.range(3, 5)),
+                      "match": r.choice([("any",), ("any",), ("name", "", "a"), ("text",)]), "use": use, "arg": arg})
     # count / from / key patterns with several steps and predicates (exprPat in the model)
     for i in range(n_number):
         k = i % 3
@@ -535,7 +562,10 @@ def gen_cases(ctx):
     # a sixth of the generated cases carry an internal DTD subset with element-content declarations; a quarter of
     # ALL generated cases (every stream, every body) run on the Xerces-DOM representation of the source
     for i, c in enumerate(cases[len(CORPUS):]):
-        if i % 6 == 5:
+        if c.get("body") == "id-fn":
+            c["doc"] = G.add_ids(r, c["doc"])
+            c["dtd"] = "ids"
+        elif i % 6 == 5:
             c["dtd"] = True
         if i % 4 == 1:
             c["xerces"] = True
@@ -582,6 +612,8 @@ def nontrivial_key(case, r):
         return "strip " + " ".join(G.sheet_tokens(case["sheet"])) + " | " + bits(sb)
     if case["kind"] in ("eval", "copy"):
         return case["kind"] + " " + " ".join(G.expr_tokens(case["expr"])) + " | " + " ".join(G.doc_tokens(case["doc"]))[:200] + bits(sb)
+    if case["kind"] == "keyarg":
+        return "keyarg " + G.keyarg_body(case["match"], case["use"], case["arg"])[60:] + " | " + " ".join(G.doc_tokens(case["doc"]))[:200] + bits(sb)
     if case["kind"] == "key":
         return "key " + G.key_body(case["match"], case["use"], case["lit"])[60:] + " | " + " ".join(G.doc_tokens(case["doc"]))[:200] + bits(sb)
     if case["kind"] == "numbersm":
@@ -720,7 +752,7 @@ def json_to_case(c):
     out = dict(c)
     out["doc"] = node(c["doc"])
     out["sheet"] = sheet(c["sheet"])
-    for f in ("expr", "use", "match", "count", "from"):
+    for f in ("expr", "use", "match", "count", "from", "arg"):
         if c.get(f) is not None:
             out[f] = expr(c[f])
     return out
